@@ -871,9 +871,19 @@ class Interp:
             return S.cmp(op, a, b)
         # general: reinterpret
         def sgn(x):
-            n = S.ite(S.cmp('ge', x, S.iconst(half, bits)), S.isub_raw(x, 1 << bits), x)
+            # two's complement reading of the unsigned representative: x - 2^bits when the sign bit is set (math integers, no wrap)
+            if x.op == 'iconst':
+                v = x.args[0] - (1 << bits) if x.args[0] >= half else x.args[0]
+                n = S.mk('iconst', (v,), 'I', bits + 1); n.lo = n.hi = v
+                return n
+            if x.hi is not None and x.hi < half: return x
+            m = S.mk('isub', (x, S.iconst(1 << bits, bits + 1)), 'I', bits + 1)
+            m.lo = (x.lo if x.lo is not None else 0) - (1 << bits); m.hi = (x.hi if x.hi is not None else (1 << bits) - 1) - (1 << bits)
+            n = S.ite(S.cmp('ge', x, S.iconst(half, bits)), m, x)
+            n.lo = -half; n.hi = half - 1
             return n
-        raise Unsupported('signed comparison of wide symbolic integers')
+        op = ('gt', 'ge', 'lt', 'le')[pred - 6]
+        return S.cmp(op, sgn(a), sgn(b))
 
     def bin_slow(self, op, a, b, bits):
         if type(a) is PInt or type(b) is PInt:
@@ -906,6 +916,14 @@ class Interp:
         if op == 7 and b.op == 'iconst' and (b.args[0] + 1) & b.args[0] == 0:
             if a.hi is not None and a.hi <= b.args[0]: return a
             return S.iurem(a, S.iconst(b.args[0] + 1, bits), bits)
+        if op == 7 and b.op == 'iconst' and b.args[0]:
+            # mask of one contiguous run of bits [k, k+n): ((a / 2^k) mod 2^n) * 2^k
+            m = b.args[0]; k = (m & -m).bit_length() - 1; run = m >> k
+            if (run + 1) & run == 0:
+                n = run.bit_length()
+                q = S.iudiv(a, S.iconst(1 << k, bits), bits)
+                if k + n < bits: q = S.iurem(q, S.iconst(1 << n, bits), bits)
+                return S.imul(q, S.iconst(1 << k, bits), bits)
         if op == 4 and a.hi is not None and a.hi < (1 << (bits - 1)) and b.op == 'iconst' and b.args[0] < (1 << (bits - 1)):
             return S.iudiv(a, b, bits)
         if op == 8 or op == 9:
@@ -1089,6 +1107,14 @@ class Interp:
             if t is Node:
                 if v.sort == 'I' and v.hi is not None and v.hi < (1 << (fb - 1)):
                     return S.izext(v, fb, tb)
+                if v.sort == 'I' and self.mode != 'fp':
+                    # unsigned representative of the sign extension: v + (2^tb - 2^fb) when the sign bit of v is set
+                    half = 1 << (fb - 1); off = (1 << tb) - (1 << fb)
+                    up = S.mk('iadd', (v, S.iconst(off, tb)), 'I', tb)
+                    up.lo = half + off; up.hi = (1 << tb) - 1
+                    n = S.ite(S.cmp('ge', v, S.iconst(half, fb)), up, S.izext(v, fb, tb))
+                    n.lo = 0; n.hi = (1 << tb) - 1
+                    return n
                 v = self.concretize_int(v)
                 return sext(v, fb) & ((1 << tb) - 1)
         elif op == 'sitofp':
